@@ -55,10 +55,18 @@ def run(prop: str, tier: str) -> int:
                     V.add("subroutine-text-raises", {"fl": group_fl}, f"{type(ex).__name__}: {ex} on {text[:300]!r}")
             group, group_fl = [], None
 
+        prev_obj, prev_key, mutated = None, None, 0
         for k, v in enumerate(vecs):
             fl, n, ops = v["fl"], v["n"] - 1, v["ops"]
             cls, shape = clss[fl][n], table[fl][n]["shape"]
-            instr = isa.build(cls, shape, ops)
+            if prev_key == (fl, n) and prev_obj is not None and k % 2 == 0:
+                # the object that was just printed is rewritten in place (as the transpilers do with branch targets
+                # and registers) and printed again: the text must be that of the instruction as it is NOW
+                instr = isa.mutate(prev_obj, shape, ops)
+                mutated += 1
+            else:
+                instr = isa.build(cls, shape, ops)
+            prev_obj, prev_key = instr, (fl, n)
             printed = str(instr)
             evals += 1
             nontriv.add((fl, v["mn"], tuple(ops)))
@@ -95,7 +103,7 @@ def run(prop: str, tier: str) -> int:
             "traces_validated_against_impl": evals, "evaluations": evals, "distinct_nontrivial": len(nontriv),
             "rule": "vector = (flavour, class, operand valuation), field-wise domains incl. negative integers, entries, slices; each printed by the real printer and parsed by the real parser with a long-lived and a fresh flavour object; groups of 16 as whole subroutines through text->binary->text",
             "samples": [vecs[0], vecs[len(vecs) // 2], vecs[-1]],
-            "real_text_equals_canonical_text": same_text,
+            "real_text_equals_canonical_text": same_text, "printed_again_after_in_place_rewrite": mutated,
             "tlc_action_coverage": r.coverage, "exhaustive": False, "checker_cmd": r.cmd,
         }
         return V.finish("model_checking", cov, ASSUME)
